@@ -8,7 +8,7 @@ list=$(mktemp)
 for d in seeded/*/; do id=$(basename $d); pid=$(python3 -c "import json;print(json.load(open('$d/meta.json'))['property'])"); echo "$d/patch.diff $pid" >> $list; done
 for f in selftest/patches/*.diff; do n=$(basename $f .diff); case $n in
   revert_fix_8927ea2) pid=C07;; revert_fix_0309171) pid=C07;; revert_fix_78c89e8) pid=C01;; revert_fix_e7decff) pid=C10;; revert_fix_3de81c4) pid=C08;;
-  revert_fix_4391106) pid=C11;; revert_fix_2b6b417) pid=C03;; revert_fix_bf880bc) pid=C03;; revert_fix_c58f771) pid=C17;;
+  revert_fix_4391106) pid=C11;; revert_fix_2b6b417) pid=C03;; revert_fix_bf880bc) pid=C03;; revert_fix_c58f771) pid=C17;; revert_fix_437516b) pid=C17;;
   C17_dead_not_zeroed) continue;;  # equivalent mutant (DESIGN section 5)
   *) pid=${n%%_*};; esac; echo "$f $pid" >> $list; done
 cat $list | xargs -P $jobs -L 1 selftest/mutant.sh 2>&1 | grep -v WARNING | tee /tmp/run_all_mutants.log
